@@ -236,6 +236,7 @@ class Inliner:
         self.inlined: list[str] = []
         self.skipped: list[str] = []
         self.introduced: dict[str, set[str]] = {}
+        self.struct_locals: dict[str, set[str]] = {}
 
     def candidate(self, caller: FunctionInfo, call: ast.Call,
                   allow_cm: bool = False):
@@ -333,6 +334,56 @@ class Inliner:
                         dst_mod.tree.body.insert(i, new)
                         dst_mod.imports[name] = src_mod.imports[name]
                         return
+
+    @staticmethod
+    def _struct_class_ok(ci) -> bool:
+        """A plain private class outside the reference: no bases, no
+        decorators, no class-level state, an __init__, only plain methods that
+        are themselves outside the reference."""
+        if ci.fq in REFERENCE_CLASSES or ci.node.bases or \
+                ci.node.decorator_list or ci.node.keywords:
+            return False
+        if "__init__" not in ci.methods:
+            return False
+        for s in ci.node.body:
+            if isinstance(s, (ast.FunctionDef, )):
+                if s.decorator_list:
+                    return False
+                continue
+            if isinstance(s, ast.Expr) and isinstance(s.value, ast.Constant):
+                continue
+            if isinstance(s, ast.AnnAssign) and s.value is None:
+                continue            # bare annotation
+            return False
+        return not any(is_reference(m) for m in ci.methods.values())
+
+    @staticmethod
+    def _struct_uses_ok(caller: FunctionInfo, name: str, ci, st) -> bool:
+        """Every other occurrence of `name` in the caller is `name.attr`
+        (attribute access or a call of one of the class's methods), there is
+        one binding, and no nested function captures it."""
+        stores = [n for n in ast.walk(caller.node) if isinstance(
+            n, ast.Name) and n.id == name and isinstance(
+                n.ctx, (ast.Store, ast.Del))]
+        if len(stores) != 1:
+            return False
+        for n in ast.walk(caller.node):
+            if isinstance(n, (ast.Lambda, ast.FunctionDef,
+                              ast.AsyncFunctionDef)) and n is not caller.node \
+                    and any(isinstance(x, ast.Name) and x.id == name
+                            for x in ast.walk(n)):
+                return False
+        for n in ast.walk(caller.node):
+            if isinstance(n, ast.Name) and n.id == name and isinstance(
+                    n.ctx, ast.Load):
+                p = parent(n)
+                if not (isinstance(p, ast.Attribute) and p.value is n):
+                    return False
+                if p.attr in ci.methods:
+                    pp = parent(p)
+                    if not (isinstance(pp, ast.Call) and pp.func is p):
+                        return False
+        return True
 
     def bind_params(self, h: FunctionInfo, call: ast.Call, suffix: str,
                     caller: FunctionInfo):
@@ -559,6 +610,40 @@ class Inliner:
                 return ast.copy_location(new_e, node)
 
         _ExprInline().visit(caller.node)
+        # struct locals: x.attr -> x__attr once no method call on x is left
+        for x_ in sorted(self.struct_locals.get(caller.fq, ())):
+            pmap = {}
+            for p_ in ast.walk(caller.node):
+                for ch in ast.iter_child_nodes(p_):
+                    pmap[id(ch)] = p_
+            left = [n for n in ast.walk(caller.node) if isinstance(
+                n, ast.Name) and n.id == x_]
+            attrs_ok = bool(left) and all(
+                isinstance(pmap.get(id(n)), ast.Attribute) and
+                pmap[id(n)].value is n and not (
+                    isinstance(pmap.get(id(pmap[id(n)])), ast.Call) and
+                    pmap[id(pmap[id(n)])].func is pmap[id(n)])
+                for n in left)
+            if not attrs_ok:
+                continue
+
+            class _Flat(ast.NodeTransformer):
+
+                def visit_Attribute(self, node):
+                    self.generic_visit(node)
+                    if isinstance(node.value, ast.Name) and node.value.id == x_:
+                        return ast.copy_location(ast.Name(
+                            id=f"{x_}__{node.attr.lstrip('_')}", ctx=node.ctx),
+                            node)
+                    return node
+
+            _Flat().visit(caller.node)
+            for n_ in ast.walk(caller.node):
+                if isinstance(n_, ast.AnnAssign) and isinstance(
+                        n_.target, ast.Name):
+                    n_.simple = 1
+            ast.fix_missing_locations(caller.node)
+            changed = True
         return changed
 
     def inline_statement(self, caller: FunctionInfo,
@@ -575,6 +660,32 @@ class Inliner:
                     and not hh.is_generator():
                 st = _clone(st)
                 st.value = st.value.value
+        # x = C(args) with C a small private class that the reference tree
+        # does not have, used only as x.attr / x.method(..): the constructor
+        # body runs here on the "object" x, whose attributes become locals
+        # x__attr at the end of the function's transformation
+        if isinstance(st, (ast.Assign, ast.AnnAssign)) and isinstance(
+                st.value, ast.Call) and isinstance(st.value.func, ast.Name):
+            tgt0 = st.targets[0] if isinstance(st, ast.Assign) and len(
+                st.targets) == 1 else getattr(st, "target", None)
+            ci = caller.module.classes.get(st.value.func.id)
+            if isinstance(tgt0, ast.Name) and ci is not None and \
+                    self._struct_class_ok(ci) and self._struct_uses_ok(
+                        caller, tgt0.id, ci, st):
+                init = ci.methods["__init__"]
+                fake = ast.Call(
+                    func=ast.Attribute(value=ast.Name(id=tgt0.id,
+                                                      ctx=ast.Load()),
+                                       attr="__init__", ctx=ast.Load()),
+                    args=st.value.args, keywords=st.value.keywords)
+                ast.copy_location(fake, st.value)
+                ast.fix_missing_locations(fake)
+                body = self.inline_body(caller, fake, init, (lambda e: None))
+                if body is not None:
+                    self.struct_locals.setdefault(caller.fq, set()).add(tgt0.id)
+                    self.inlined.append(
+                        f"{init.fq} into {caller.fq} (private class as locals)")
+                    return body
         if isinstance(st, ast.Expr) and isinstance(st.value, ast.Call):
             call, make = st.value, (lambda e: None)
         elif isinstance(st, ast.Expr) and isinstance(
@@ -1512,4 +1623,19 @@ def normalise(repo: Repo, resolver_factory, max_rounds: int = 3):
         if removed:
             repo = Repo(root=repo.root, overlay=repo.overlay, trees={
                 name: mod.tree for name, mod in repo.modules.items()})
+    # aliases introduced by parameter binding (`q = self._queue`) are read
+    # as their chains, like hand-written ones
+    from sa.dispatch import AliasInliner
+    alog: list[str] = []
+    for name, mod in repo.modules.items():
+        if mod in repo.hand_written():
+            a = AliasInliner()
+            a.visit(mod.tree)
+            if a.log:
+                ast.fix_missing_locations(mod.tree)
+                alog += [f"{name}: {x}" for x in a.log]
+    if alog:
+        log += alog
+        repo = Repo(root=repo.root, overlay=repo.overlay, trees={
+            name: mod.tree for name, mod in repo.modules.items()})
     return repo, log
